@@ -7,6 +7,7 @@
 from pyasn1 import error
 from pyasn1.codec.ber import encoder
 from pyasn1.compat.octets import str2octs, null
+from pyasn1.type import base
 from pyasn1.type import univ
 from pyasn1.type import useful
 
@@ -175,9 +176,18 @@ class SetEncoder(encoder.SequenceEncoder):
 
             namedTypes = value.componentType
 
-            for idx, component in enumerate(value.values()):
+            for idx in range(len(namedTypes) or len(value)):
+                # do not instantiate absent components of the value being encoded
+                component = value.getComponentByPosition(idx, instantiate=False)
+
                 if namedTypes:
                     namedType = namedTypes[idx]
+
+                    if component is base.noValue:
+                        if namedType.isOptional or namedType.isDefaulted:
+                            continue
+
+                        component = value.getComponentByPosition(idx)
 
                     if namedType.isOptional and not component.isValue:
                             continue
